@@ -49,6 +49,9 @@ def cases(draw, tier):
         c["state"] = sc
     c["idx"] = draw(gen.index_list(n, 1, 6))
     c["extras"] = draw(st.booleans())
+    c["layout"] = draw(st.sampled_from(["contiguous", "contiguous", "transposed_view"]))   # explicit operands as a non-contiguous view
+    c["basis2"] = draw(gen.basis_string(n, alphabet))                                    # the same operand tensor is rotated again
+    c["zfirst"] = draw(st.booleans())
     return c
 
 
@@ -60,7 +63,58 @@ def build_operand(c):
     return A @ A.conj().t() if c["psd"] else A + A.conj().t()
 
 
+def lib_operand(z, layout):
+    """explicit operand in the library's real-pair encoding; 'transposed_view' = same values, non-contiguous memory layout"""
+    t = R.c_to_lib(z)
+    if layout == "transposed_view" and t.dim() == 3:
+        t = R.c_to_lib(z.t()).transpose(1, 2)
+    elif layout == "transposed_view" and t.dim() == 2:
+        t = R.c_to_lib(z).t().contiguous().t()
+    return t
+
+
 def check(c):
+    r = check_one(c)
+    if c.get("basis2") and c["mode"] in ("explicit_psi", "explicit_rho"):
+        # history on one operand tensor: rotate in the reference basis (optional), then basis 1, then basis 2 - each result must
+        # still be the rotation of the ORIGINAL operand
+        check_reuse(c)
+    return r
+
+
+def check_reuse(c):
+    from qucumber.nn_states import ComplexWaveFunction, DensityMatrix
+    from qucumber.utils import unitaries as UN
+    n = c["n"]
+    udict_ref, udict_lib = gen.ref_unitary_dict(c), gen.lib_unitary_dict(c)
+    op = build_operand(c)
+    t = lib_operand(op, c.get("layout", "contiguous"))
+    keep = t.clone()
+    states = R.rows_from_indices(c["idx"], n)
+    seq = (["Z" * n] if c.get("zfirst") else []) + [c["basis"], c["basis2"]]
+    if c["mode"] == "explicit_psi":
+        st_ = ComplexWaveFunction(n, 1, unitary_dict=udict_lib, gpu=False)
+        space = st_.generate_hilbert_space()
+        for b in seq:
+            U = R.kron_U(udict_ref, b)
+            got = R.lib_to_c(UN.rotate_psi(st_, b, space, psi=t))
+            require(bool(torch.all((got - U @ op).abs() <= 1e-10 * float(op.abs().max() + 1e-300))), "reuse:rotate_psi", f"rotating the same explicit psi tensor again (basis {b}, after {seq}) no longer gives U psi")
+            g2 = R.lib_to_c(UN.rotate_psi_inner_prod(st_, b, states.clone(), psi=t))
+            require(bool(torch.all((g2 - (U @ op)[c["idx"]]).abs() <= 1e-10 * float(op.abs().max() + 1e-300))), "reuse:rotate_psi_inner_prod", f"explicit psi reused (basis {b})")
+    else:
+        st_ = DensityMatrix(n, 1, 1, unitary_dict=udict_lib, gpu=False)
+        space = st_.generate_hilbert_space()
+        for b in seq:
+            U = R.kron_U(udict_ref, b)
+            want = U @ op @ U.conj().t()
+            got = R.lib_to_c(UN.rotate_rho(st_, b, space, rho=t))
+            require(bool(torch.all((got - want).abs() <= 1e-10 * float(op.abs().max() + 1e-300))), "reuse:rotate_rho", f"rotating the same explicit rho tensor again (basis {b}, sequence {seq}, layout {c.get('layout')}) no longer gives U rho U^dagger")
+            g2 = UN.rotate_rho_probs(st_, b, states.clone(), rho=t).double()
+            require(bool(torch.all((g2 - want.diagonal().real[c["idx"]]).abs() <= 1e-10 * float(op.abs().max() + 1e-300))), "reuse:rotate_rho_probs", f"explicit rho reused (basis {b})")
+    require(torch.equal(t, keep), "explicit-operand-mutated", "a rotation modified the caller's explicit psi/rho tensor")
+
+
+def check_one(c):
     from qucumber.nn_states import ComplexWaveFunction, DensityMatrix, PositiveWaveFunction
     from qucumber.utils import unitaries as UN
     n, basis, mode = c["n"], c["basis"], c["mode"]
